@@ -809,3 +809,66 @@ Proof.
         replace (align8 (a + isize it) =? align8 (a + ilen it * type_size t)) with false; [reflexivity|].
         symmetry. apply Z.eqb_neq. intros E. apply Hdiff. symmetry. exact E.
 Qed.
+
+(* ---- lazy reads at a store offset: object j of a concatenation reads as it does alone ---- *)
+Lemma kas_write_length its : items_ok its -> its <> [] -> zlen (kas_write its) = kw_fs its.
+Proof.
+  intros Hok Hne. pose proof (kw_facts its Hok Hne) as (Hn & Hk & Ha & Hal & Hfs & Hlt & Hkeys).
+  destruct Hok as (Hall & _ & _).
+  rewrite (kas_write_parts its Hne), !zlen_app, kw_header_length, kw_descs_length, Hkeys.
+  rewrite (blocks_length its (kw_a its) Hall ltac:(lia) Hne). fold (kw_fs its). unfold kw_n in *. lia.
+Qed.
+
+Lemma slice_app_left (f rest : list Z) a n : 0 <= a -> 0 <= n -> a + n <= zlen f -> slice (f ++ rest) a n = slice f a n.
+Proof.
+  intros Ha Hn Hb. unfold slice. rewrite skipn_app.
+  replace (Z.to_nat a - length f)%nat with 0%nat by (unfold zlen in Hb; lia). cbn [skipn].
+  rewrite firstn_app. rewrite skipn_length.
+  replace (Z.to_nat n - (length f - Z.to_nat a))%nat with 0%nat by (unfold zlen in Hb; lia).
+  rewrite firstn_O, app_nil_r. reflexivity.
+Qed.
+
+(* kastore_read_item seeks to file_offset + array_start: whatever follows the store on the stream
+   (further objects) does not influence what a lazy open returns *)
+Theorem lazy_open_ignores_rest its rest : items_ok its -> its <> [] ->
+  kas_open false (kas_write its ++ rest) = kas_open false (kas_write its).
+Proof.
+  intros Hok Hne. pose proof (kas_write_length its Hok Hne) as Hlen.
+  pose proof (kw_facts its Hok Hne) as (Hn & Hk & Ha & Hal & Hfs & Hlt & Hkeys).
+  assert (Hall : Forall item_ok its) by (destruct Hok; auto).
+  assert (G3 : kw_k its + keys_len its <= kw_fs its) by (fold (kw_a its); lia).
+  assert (G4 : layout_end (kw_a its) its <= kw_fs its) by (fold (kw_fs its); lia).
+  destruct (layout_props its (kw_k its) (kw_a its) (kw_fs its) Hall ltac:(lia) ltac:(lia) G3 G4 Hlt) as (Hdc & _ & _).
+  rewrite Forall_forall in Hdc.
+  rewrite (kas_write_parts its Hne) in *.
+  replace ((kw_header its ++ kw_descs its ++ kw_keys its ++ blocks (align8 (kw_a its)) its) ++ rest)
+    with (kw_header its ++ kw_descs its ++ (kw_keys its ++ blocks (align8 (kw_a its)) its ++ rest))
+    by (rewrite <- !app_assoc; reflexivity).
+  rewrite !(kas_open_prefix_any false) by auto. rewrite !take_app.
+  f_equal. f_equal. unfold lazy_items. apply map_ext_in. intros d Hd.
+  destruct (Hdc d Hd) as ((Ht0 & _ & _ & Has0 & Hal0) & Htl & _ & (Has & Hdiv)).
+  assert (Hts : 1 <= type_size (d_type d) <= 8) by (apply type_size_pos; lia).
+  assert (Hend : d_as d + d_al d * type_size (d_type d) <= kw_fs its).
+  { pose proof (Z.mul_div_le (kw_fs its - d_as d) (type_size (d_type d)) ltac:(lia)). nia. }
+  assert (Hsz : 0 <= d_al d * type_size (d_type d)) by nia.
+  assert (Has1 : 0 <= d_as d) by lia.
+  assert (Hsm : 0 <= d_al d * type_size (d_type d) < two64) by (split; [exact Hsz | lia]).
+  rewrite (w64_small _ Hsm).
+  f_equal. destruct (d_al d * type_size (d_type d) =? 0); [reflexivity|].
+  set (f := kw_header its ++ kw_descs its ++ kw_keys its ++ blocks (align8 (kw_a its)) its) in *.
+  replace (kw_header its ++ kw_descs its ++ kw_keys its ++ blocks (align8 (kw_a its)) its ++ rest) with (f ++ rest)
+    by (unfold f; rewrite <- !app_assoc; reflexivity).
+  rewrite zlen_app, Hlen. pose proof (zlen_nonneg rest).
+  replace (kw_fs its + zlen rest <? d_as d + d_al d * type_size (d_type d)) with false by (symmetry; apply Z.ltb_ge; lia).
+  replace (kw_fs its <? d_as d + d_al d * type_size (d_type d)) with false by (symmetry; apply Z.ltb_ge; lia).
+  rewrite slice_app_left by lia. reflexivity.
+Qed.
+
+(* hence, on the skip_tables / skip_reference_sequence paths, object j of a multi-object stream is
+   loaded exactly as it is loaded from a file of its own *)
+Theorem lazy_load_ignores_rest its rest sk sr : items_ok its -> its <> [] -> sk || sr = true ->
+  tsk_load_bytes sk sr (kas_write its ++ rest) = tsk_load_bytes sk sr (kas_write its).
+Proof.
+  intros Hok Hne Hs. unfold tsk_load_bytes. rewrite Hs. cbn [negb].
+  rewrite (lazy_open_ignores_rest its rest Hok Hne). reflexivity.
+Qed.
